@@ -65,6 +65,13 @@ func jobExits(j *JobRec) []int {
 // oC11Final: a fault-tolerant drain — at rest every accepted job is processed and acknowledged.
 func oC11Final(ix *Index) []Violation {
 	var out []Violation
+	for _, ev := range ix.H {
+		if ev.K == "goexit" {
+			// a worker function that never returns takes its pool goroutine and slot with it: the drain
+			// clauses do not apply (its delivery must stay unacknowledged - oC11Ack and the crash law)
+			return nil
+		}
+	}
 	out = append(out, oDeadlock("C11")(ix)...)
 	if !ix.finalRunning() || ix.R.Rep.Deadlock {
 		return out
@@ -136,7 +143,7 @@ func planOf(c *Case) *c11Plan {
 func genC11(t *rapid.T, th bool) *c11Plan {
 	pf := &Profile{Kinds: []string{"plain"}, QKinds: []string{"pers", "persprio", "dist", "distprio"}, MaxQueues: 1, Concs: []int{1, 2, 3, 4}, MinClients: 1, MaxClients: 2, MaxOps: scale(th, 4, 7),
 		Ops:     map[string]int{"add": 40, "addmany": 6, "yield": 4, "settle": 2},
-		MaxCtrl: 0, GatedProb: 15, Outs: []int{OutVal, OutVal, OutPanicStr}, MaxBatch: 3}
+		MaxCtrl: 0, GatedProb: 15, Outs: []int{OutVal, OutVal, OutPanicStr}, MaxBatch: 3, RaceProb: -1}
 	c := genProgram(t, "C11", pf, th)
 	gf := func(label string) []Fault {
 		var fs []Fault
@@ -156,6 +163,20 @@ func genC11(t *rapid.T, th bool) *c11Plan {
 			ctrl = append(ctrl, Op{Op: "yield"})
 		}
 		c.Clients[0] = append(ctrl, Op{Op: "cancelctx"})
+	}
+	// one job whose worker function never returns (runtime.Goexit): it must stay unacknowledged
+	if rapid.IntRange(0, 5).Draw(t, "withgoexit") == 0 {
+		var adds []*Item
+		for _, cl := range c.Clients {
+			for _, op := range cl {
+				if op.Op == "add" && op.It != nil {
+					adds = append(adds, op.It)
+				}
+			}
+		}
+		if len(adds) > 0 {
+			pick(t, "goexitjob", adds).Out = OutGoexit
+		}
 	}
 	rs := genSched(t, pf, th)
 	c.RecSched = &rs
@@ -273,6 +294,12 @@ func c11Body(t failer, plan *c11Plan, st *Stats, spec *Spec) {
 	}
 	if ackFault {
 		classes = append(classes, "ack-fault")
+	}
+	for _, ev := range full.Hist {
+		if ev.K == "goexit" {
+			classes = append(classes, "worker-function-goexit")
+			break
+		}
 	}
 	for _, cl := range classes {
 		st.Classes[cl]++
